@@ -39,7 +39,7 @@ def _feat(a, v) -> set:
     if r is not None and r[0] == "==" and mod2(a) and (const(r[1], 1) or const(r[2], 1)):
         out.add("even")
     if isinstance(a, ast.Call) and (dotted(a.func) or "").split(".")[-1] in ("allclose", "isclose", "array_equal") and not v:
-        if transposed and "@" not in t:
+        if transposed and "@" not in t and "conj" not in t:
             out.add("symmetric")
         if ".conj().T" in t and ("identity(" in t or "eye(" in t):
             out.add("unitary")
@@ -51,7 +51,7 @@ def _feat(a, v) -> set:
         big, small = r[1], r[2]
         bt = ast.unparse(big).replace(" ", "")
         if "norm(" in bt:
-            if ("np.transpose(" in bt or ".T" in bt) and "@" not in bt:
+            if ("np.transpose(" in bt or ".T" in bt) and "@" not in bt and "conj" not in bt:
                 out.add("symmetric")
             if "@" in bt and ("sympmat" in bt or "omega" in bt.lower()):
                 out.add("symplectic")
@@ -146,3 +146,32 @@ def guards(ctx, rule="C17.guards"):
 
 def rules(ctx):
     guards(ctx)
+    symmetric_not_hermitian(ctx)
+
+
+def symmetric_not_hermitian(ctx, rule="C17.guards"):
+    ctx.explain(f"{rule}: (symmetric, not Hermitian) the decompositions of this module are for complex SYMMETRIC matrices (Takagi / "
+                "Autonne): no test in decompositions.py compares a matrix with its own CONJUGATE transpose (allclose(A, A.conj().T), "
+                "norm(A - A.conj().T)) - that accepts Hermitian and rejects complex symmetric input.")
+    n = 0
+    for f in ctx.tree.module(DEC).functions.values():
+        for c in walk_no_nested(f.node):
+            pair = None
+            if isinstance(c, ast.Call) and (dotted(c.func) or "").split(".")[-1] in ("allclose", "isclose", "array_equal") and len(c.args) >= 2:
+                pair = (c.args[0], c.args[1])
+            if isinstance(c, ast.BinOp) and isinstance(c.op, ast.Sub):
+                pair = (c.left, c.right)
+            if pair is None:
+                continue
+            a, b = (ast.unparse(x).replace(" ", "") for x in pair)
+            forms = lambda x: {f"{x}.conj().T", f"{x}.T.conj()", f"np.conj({x}).T", f"np.conj({x}.T)", f"np.transpose({x}).conj()",
+                               f"np.conjugate({x}).T", f"{x}.conjugate().T", f"np.transpose(np.conj({x}))", f"{x}.conj().transpose()"}
+            plain = lambda x: {f"{x}.T", f"np.transpose({x})", f"{x}.transpose()"}
+            if b in plain(a) or a in plain(b):
+                n += 1
+                ctx.ob(rule, f.site, True, role="symmetry-test", line=c.lineno)
+            elif b in forms(a) or a in forms(b):
+                n += 1
+                ctx.ob(rule, f.site, False, f"`{ast.unparse(c)[:60]}` tests for a Hermitian matrix where the decomposition needs a "
+                       "(complex) symmetric one", role="symmetry-test", line=c.lineno)
+    ctx.floor(rule, 30)
